@@ -95,6 +95,7 @@ var nativeFuncs = map[string]any{
 	"html.UnescapeString":             html.UnescapeString,
 	"time.Parse":                      time.Parse,
 	"(time.Time).Format":              time.Time.Format,
+	"(time.Time).UTC":                 time.Time.UTC,
 	"(time.Time).After":               time.Time.After,
 	"(time.Time).Before":              time.Time.Before,
 	"(time.Time).Equal":               time.Time.Equal,
